@@ -9,7 +9,7 @@ def sortStrs (l : List String) : List String := (l.toArray.qsort (· < ·)).toLi
 
 def showWill : Option Will → String
   | none => "-"
-  | some w => s!"{w.topic}:{w.payload}:{w.qos}:{if w.retain then 1 else 0}"
+  | some w => s!"{w.topic}:{if w.payload = "" then "-" else w.payload}:{w.qos}:{if w.retain then 1 else 0}"
 
 def showS (s : SessionMD) (stamps : Bool) : String :=
   let base := s!"S,{s.id},{s.client},{s.mount},{s.peer},{showWill s.lwt}"
@@ -54,7 +54,7 @@ def World.flush (w : World) (i : Nat) : World × List Event :=
 def parseWill (s : String) : Option Will :=
   if s = "-" then none else
   match s.splitOn ":" with
-  | [t, p, q, r] => some ⟨t, p, q.toNat!, r = "1"⟩
+  | [t, p, q, r] => some ⟨t, if p = "-" then "" else p, q.toNat!, r = "1"⟩
   | _ => none
 
 def parseEntry (ev : Event) (s : String) : Option Event :=
